@@ -29,7 +29,7 @@ one(){
   cd /; git -C /repo worktree remove --force $W; rm -rf $W
 }
 export -f one
-ARGS=("$@")
+ARGS=(); for a in "$@"; do ARGS+=("$(realpath "$a")"); done
 for ((s=0; s<J; s++)); do
   ( for ((k=s; k<${#ARGS[@]}; k+=J)); do one "${ARGS[$k]}" $s; done ) &
 done
